@@ -256,7 +256,13 @@ class History:
                 'description': 'sim', 'target_url': 'https://ci.sim/x'}})
         else:
             self.host.bb_status[(c, key)] = state
-            self.pending.append({'t': 'bb', 'json': {'commit_status': {
+            # Bitbucket tells about a status with a "created" or an
+            # "updated" event (re-created statuses, re-sent events)
+            self.nbb = getattr(self, 'nbb', 0) + 1
+            self.pending.append({'t': 'bb', 'bbkind': (
+                'commit_status_created' if (self.nbb + op['c']) % 2
+                else 'commit_status_updated'),
+                'json': {'commit_status': {
                 'state': state, 'key': key, 'url': 'https://ci.sim/x',
                 'description': 'sim',
                 'links': {'commit': {'href': 'https://h/commit/' + c}}}}})
@@ -385,7 +391,9 @@ class History:
                 told = cs['state']
                 (job, served) = self._with_served(
                     lambda: wh.handle_bitbucket_repo_event(
-                        self.berte, 'commit_status_updated', ev['json']))
+                        self.berte, ev.get('bbkind',
+                                           'commit_status_updated'),
+                        ev['json']))
             else:
                 key, c = 'github_actions', ev['json']['check_suite'][
                     'head_sha']
